@@ -601,8 +601,8 @@ def program_src(prog):
         o.extend(a_msgs[:1] + ["    #[allow(dead_code)]\n"] + a_err + a_ovs + a_msgs[1:] + a_mat)
     else:
         o.extend(a_err + a_msgs + a_mat + a_ovs)
-    o.append("    impl%s Ctr%s%s {\n        pub const fn new() -> Self {\n            %s\n        }\n" % (
-        gen_hdr, gen_hdr, gen_where, "Ctr { tag: 0, _p: std::marker::PhantomData }" if generic else "Ctr { tag: 0 }"))
+    o.append("    impl%s Ctr%s%s {\n        pub fn new() -> Self {\n            %s\n        }\n" % (
+        gen_hdr, gen_hdr, gen_where, "Ctr { tag: verif_rrt::next_birth(), _p: std::marker::PhantomData }" if generic else "Ctr { tag: verif_rrt::next_birth() }"))
     for m in own["methods"]:
         o.append("        #[sv::msg(%s%s)]%s\n" % (m["kind"], (", resp=%s" % m["resp"]) if (m["kind"] == "query" and m.get("explicit")) else "",
                                                      serde_names(m, "        ")))
